@@ -132,7 +132,22 @@ def generate(ctx):
         if cls == "float" and rng.random() < 0.2:
             # evaluation configuration close to the fixed one (the regime the search ends in)
             mobile = [[c + rng.gauss(0, 0.05 * scale) for c in fixed[rng.randrange(nf)]] for _ in range(nm)]
-        if cls == "float":
+        if cls == "float" and rng.random() < 0.3:
+            # both molecules far from the origin (a molecule anywhere in a large simulation box): a squared
+            # distance computed as |a|^2 + |b|^2 - 2 a.b instead of |a - b|^2 loses its digits here
+            off = [rng.choice([-1, 1]) * 10 ** rng.uniform(1.0, 3.3) for _ in range(3)]
+            fixed = [[c + o for c, o in zip(p, off)] for p in fixed]
+            mobile0 = [[c + o for c, o in zip(p, off)] for p in mobile0]
+            if rng.random() < 0.7:   # well overlapped: small chi2, where cancellation hurts most
+                mobile = [[c + rng.gauss(0, 0.02 * scale) for c in fixed[rng.randrange(nf)]] for _ in range(nm)]
+            else:
+                mobile = [[c + o for c, o in zip(p, off)] for p in mobile]
+            cls = "float-far"
+        if cls == "float-far":
+            # exact motion (signed permutation, no translation): a generic rotation of coordinates of
+            # magnitude 1e3 would itself perturb them by more than the comparison tolerance allows
+            rigid = {"m": _signed_perm(rng), "t": [0.0, 0.0, 0.0]}
+        elif cls == "float":
             rigid = {"m": _rot(rng), "t": [rng.gauss(0, 3 * scale) for _ in range(3)]}
         else:
             rigid = {"m": _signed_perm(rng), "t": [float(rng.randint(-4, 4)) for _ in range(3)]}
